@@ -102,6 +102,9 @@ def harness_limit(e):
     UNDECIDED (the contract has to be extended), never as a violation: an equivalent refactoring may do the same."""
     if isinstance(e, AttributeError):
         obj = getattr(e, "obj", None)
+        if isinstance(obj, tuple) and obj and isinstance(obj[0], str) and obj[0].isupper():
+            return (f"the opaque stand-in {obj[0]!r} of the fixture does not model the attribute '{getattr(e, 'name', '?')}' the code now uses "
+                    f"(the sidecar represents these objects by tokens)")
         if obj is not None:
             cls = obj if isinstance(obj, type) else type(obj)
             if (cls.__module__ or "").split(".")[0] in ("contracts", "pyvc", "bounded") or cls.__name__ == "SimpleNamespace":
